@@ -27,7 +27,7 @@ ASSUMPTIONS = [
     "which representative of equal keys (e.g. -0.0 / 0.0) is shown in the group column is not pinned",
 ]
 BOUND = {
-    "quick": "long periodic frames of 17 and 40 rows per kind; one group column: rows 0..3 (0..4 for alphabets <= 4 values) over 'quick' alphabets of f8,i8,u1,b1,str,U,D,us; two group columns: 8 kind pairs x {NA,lo,hi}^2 rows 0..3; 22 helper/lambda pairs; particular values as in C03; 32 helper/lambda pairs incl. large-offset and infinite float payloads; aggregate on a frame grouped and aggregated before an element-wise edit; array forms and provenances of the one-key frames",
+    "quick": "long periodic frames of 17 and 40 rows per kind; one string-key frame of 200003 rows with keys of two lengths in periods of 2 and 3 (aggregate, count); one group column: rows 0..3 (0..4 for alphabets <= 4 values) over 'quick' alphabets of f8,i8,u1,b1,str,U,D,us; two group columns: 8 kind pairs x {NA,lo,hi}^2 rows 0..3; 22 helper/lambda pairs; particular values as in C03; 32 helper/lambda pairs incl. large-offset and infinite float payloads; aggregate on a frame grouped and aggregated before an element-wise edit; array forms and provenances of the one-key frames",
     "thorough": "long periodic frames of 17, 40, 130, 300 rows; one group column: rows 0..4 (0..5) over 'thorough' alphabets; two group columns: 12 kind pairs rows 0..4; plus the additions listed for the quick tier",
 }
 TIME_CAP = {"quick": 300, "thorough": 3000}
@@ -73,6 +73,9 @@ def shards(tier):
     for kind in KINDS:
         for length in ([17, 40, 1025] if not big else [17, 40, 130, 300, 1025, 65537]):
             out.append({"part": "long", "kind": kind, "length": length, "period": (3 if not big else 4) if length < 1000 else 2})
+    # one very long string-key frame (a width or a type measured on a SAMPLE of a big column is wrong for the rows not
+    # sampled; seeded C04-r12-1 samples above 200 000 rows): keys of different lengths alternating, and in blocks of three
+    out.append({"part": "long", "kind": "str", "length": 200003, "period": 3, "alpha": ["ab", "abc"], "ops": ["aggregate-core", "count"]})
     for k1, k2 in (PAIRS_T if big else PAIRS_Q):
         n = 4 if big else 3
         for first in range(len(V.alphabet(k1, "key"))):
@@ -456,11 +459,15 @@ def run_shard(shard, rec):
             check_case({"cols": cols, "by": ["k"], "ops": ops, "poke": True}, rec)
     elif shard["part"] == "long":
         kind, length = shard["kind"], shard["length"]
-        alpha = V.alphabet(kind, "key")
+        alpha = shard.get("alpha") or V.alphabet(kind, "key")
         # (long groups hold several missing payload values: shorthand and lambda must still agree, e.g. count_unique)
         core = ["aggregate-core", "count", "split", "modify", "helper:4", "helper:5", "helper:6", "helper:10", "helper:11", "helper:17", "aggregate-reentrant", "aggregate-mutating", "modify-mutating"]
+        if shard.get("ops"):
+            core = shard["ops"]
         for p in range(1, shard["period"] + 1):
             for pat in itertools.product(alpha, repeat=p):
+                if shard.get("ops") and len(set(pat)) < 2:
+                    continue
                 toks = [pat[i % p] for i in range(length)]
                 cols = [["k", kind, toks]] + payload_cols(length)
                 check_case({"cols": cols, "by": ["k"], "ops": core}, rec)
